@@ -114,6 +114,13 @@ def poly_canon(n):
     return sorted((k, complex(np.round(v, 4))) for k, v in d.items() if abs(v) > 1e-4)
 
 
+def poly_terms(n):
+    """as poly_canon but keeping every listed term, including exact zeros (which terms survive a tolerance is the question)."""
+    if not (isinstance(n, (list, tuple)) and n and n[0] == "poly"):
+        return n
+    return sorted((tuple(g), complex(np.round(c * 1j ** int(p), 4))) for g, p, c in zip(n[1], n[2], n[3]))
+
+
 def both(rec, sub, case, fa, fb, NB, TB, nt=True, canon=None, tags=None):
     """run the two implementations; a raise in one only, or different normalised outputs, is a disagreement."""
     ra = rb = ea = eb = None
@@ -335,6 +342,15 @@ def run_classes(shard, rec, NB, TB):
         both(rec, "c.PauliPolynomial.matmul", pc, lambda: Ha @ Ka, lambda: Hb @ Kb, NB, TB)
         both(rec, "c.PauliPolynomial.matmul.pauli", pc, lambda: Ha @ Pa, lambda: Hb @ Pb, NB, TB)
         both(rec, "c.PauliPolynomial.reduce", pc, lambda: (Ha @ Ka).reduce(1e-4), lambda: (Hb @ Kb).reduce(1e-4), NB, TB, canon=poly_canon)
+        # explicit tolerances with coefficients exactly on the threshold (round values, exact cancellations)
+        tg_ = np.concatenate([gs, gs[:2]])
+        tp_ = np.concatenate([ps, ps[:2]])
+        tc_ = np.concatenate([rng.choice(np.array([0.5, -0.5, 1.0, -1.0, 0.25, 2.0]), size=len(gs)).astype(complex), [0.5, -1.0]])
+        tc_[0], tc_[1] = -0.5, 0.5       # term 0 cancels exactly with the appended copy; term 1 sums to -0.5
+        for tol_ in (0, 0.5, 1.0, 0.25):
+            both(rec, "c.PauliPolynomial.reduce.tie", {"tol": tol_, "terms": [[O.show(x, y), complex(z)] for x, y, z in zip(tg_, tp_, tc_)]},
+                 lambda: NB.Poly(tg_.copy(), tp_.copy(), tc_.copy()).reduce(tol_), lambda: TB.Poly(tg_.copy(), tp_.copy(), tc_.copy()).reduce(tol_), NB, TB,
+                 canon=poly_terms)
         both(rec, "c.PauliPolynomial.trace", pc, lambda: complex(Ha.trace()), lambda: complex(TB.cnp(Hb.trace())), NB, TB)
         # near-duplicate strings (equal up to one far site) must be kept apart by reduce / + in both packages
         nd = np.stack([gs[0]] * 4)
@@ -474,6 +490,13 @@ def run_circuits(shard, rec, NB, TB):
             circ.forward(o1)
             return o0, o1, circ.forward_map
         both(rec, "c.circuit.wider", dict(desc, W=W), lambda: wider(NB), lambda: wider(TB), NB, TB)
+        # povm(nsample) of a deterministic circuit: every yielded state is the same back-evolved zero state in both packages,
+        # uncompiled / layer-compiled / compiled
+        for comp in CC.COMPILE:
+            def povm(B_, comp=comp):
+                circ, _ = CC.configure(B_, "CliffordCircuit", prog, N, "built", comp)
+                return [st for st in circ.povm(3)]
+            both(rec, "c.circuit.povm." + comp, desc, lambda: povm(NB), lambda: povm(TB), NB, TB)
         # diagonalize: same circuits (gate qubits and generators) and same action
         g = gen.rand_nonid(rng, N)
         p = int(rng.integers(4))
